@@ -33,7 +33,8 @@ def main():
     out = {"seed": seed, "props": props}
     sh(f"git -C /repo worktree add -q --detach {wt} HEAD")
     try:
-        env = dict(os.environ, PYTHONPATH=f"{wt}/perception_eval", PYTHONHASHSEED="0", MPLBACKEND="Agg", TQDM_DISABLE="1")
+        os.makedirs(f"{wt}/_tmp", exist_ok=True)   # the eda tests leave ~100 MB per run in $TMPDIR; removed with the worktree
+        env = dict(os.environ, PYTHONPATH=f"{wt}/perception_eval", PYTHONHASHSEED="0", MPLBACKEND="Agg", TQDM_DISABLE="1", TMPDIR=f"{wt}/_tmp")
         shutil.copy(demo, os.path.join(wt, "demo.py"))
         rc, o = sh("/venv/bin/python -W ignore demo.py", cwd=wt, env=env, timeout=900)
         out["demo_clean_rc"] = rc
